@@ -26,6 +26,15 @@ pub trait NamingContext {
 
     /// Apply serde naming convention transformations
     fn apply_naming_convention(&self, field_name: &str, convention: RenameRule) -> String {
+        if convention == RenameRule::CamelCase {
+            // RenameRule::apply_to_field(CamelCase) cuts one *byte* off the PascalCase form and
+            // panics when that form is empty ("__") or starts with a multi-byte character ("émile")
+            let pascal = RenameRule::PascalCase.apply_to_field(field_name);
+            return match pascal.chars().next() {
+                Some(first) => first.to_lowercase().chain(pascal.chars().skip(1)).collect(),
+                None => pascal,
+            };
+        }
         convention.apply_to_field(field_name)
     }
 
